@@ -28,6 +28,11 @@ impl TransactionSet {
         self.inner.is_empty()
     }
 
+    /// Does the set hold a transaction with this hash?
+    pub fn contains(&self, txhash: TxHash) -> bool {
+        self.inner.contains_key(&txhash)
+    }
+
     /// Adds a transaction to the set.
     pub fn insert(&mut self, txn: Transaction) {
         self.inner.insert(txn.hash_nosigs(), txn);
